@@ -1343,6 +1343,122 @@ Proof.
   exact (eval_field_bot o (extend empty_obj o) Hf Hlen m).
 Qed.
 
+(* ------------------------------------------------------------------ what generated programs denote *)
+
+(* every literal of the expression has distinct field names (the evaluator rejects others) *)
+Fixpoint wf_oexpr (e : oexpr) : Prop :=
+  match e with
+  | OLit l => wf_layer l
+  | OPlus a b => wf_oexpr a /\ wf_oexpr b
+  | OMergePatch a b => wf_oexpr a /\ wf_oexpr b
+  | ORemove a _ => wf_oexpr a
+  | OMapKey _ a => wf_oexpr a
+  | OPrune a => wf_oexpr a
+  end.
+
+Lemma simple_obj_keys : forall fs, map fst (self_layer (simple_obj fs)) = map fst fs.
+Proof. intros fs. unfold simple_obj. cbn [self_layer]. rewrite map_map. reflexivity. Qed.
+
+Lemma wf_simple_obj : forall fs, NoDup (map fst fs) -> wf_obj (simple_obj fs).
+Proof.
+  intros fs H. unfold wf_obj, layers. change (super_layers (simple_obj fs)) with (@nil layer).
+  constructor; [|constructor]. unfold wf_layer. rewrite simple_obj_keys. exact H.
+Qed.
+
+Lemma visible_nodup : forall o, NoDup (get_visible_fields_order o).
+Proof. intros o. apply sorted_nodup. apply visible_fields_order_sorted. Qed.
+
+Lemma prune_fields_keys : forall o ns fs, prune_fields o ns = Ok fs ->
+  (forall k, In k (map fst fs) -> In k ns) /\ (NoDup ns -> NoDup (map fst fs)).
+Proof.
+  induction ns as [|n r IH]; intros fs H; cbn [prune_fields] in H.
+  - injection H as <-. split; [intros k [] | intros _; constructor].
+  - destruct (eval_field o n) as [v| | |]; cbn [obind] in H; try discriminate.
+    destruct (prune_fields o r) as [rest| | |]; cbn [obind] in H; try discriminate.
+    destruct (IH rest eq_refl) as [Hin Hnd]. injection H as <-.
+    destruct v; cbn [map fst].
+    + split.
+      * intros k [<-|Hk]; [left; reflexivity | right; apply Hin; exact Hk].
+      * intros Hd. apply NoDup_cons_iff in Hd. destruct Hd as [Hn Hd]. constructor; auto.
+    + split.
+      * intros k Hk. right. apply Hin. exact Hk.
+      * intros Hd. apply NoDup_cons_iff in Hd. apply Hnd. tauto.
+Qed.
+
+Lemma merge_patch_fields_keys : forall t p tf ns fs, merge_patch_fields t p tf ns = Ok fs ->
+  (forall k, In k (map fst fs) -> In k ns) /\ (NoDup ns -> NoDup (map fst fs)).
+Proof.
+  induction ns as [|n r IH]; intros fs H; cbn [merge_patch_fields] in H.
+  - injection H as <-. split; [intros k [] | intros _; constructor].
+  - destruct (if name_in n tf then eval_field t n else Ok VNull) as [tv| | |]; cbn [obind] in H; try discriminate.
+    destruct (eval_field p n) as [v| | |]; cbn [obind] in H; try discriminate.
+    destruct (merge_patch_fields t p tf r) as [rest| | |]; cbn [obind] in H; try discriminate.
+    destruct (IH rest eq_refl) as [Hin Hnd]. injection H as <-.
+    destruct v; cbn [map fst].
+    + split.
+      * intros k [<-|Hk]; [left; reflexivity | right; apply Hin; exact Hk].
+      * intros Hd. apply NoDup_cons_iff in Hd. destruct Hd as [Hn Hd]. constructor; auto.
+    + split.
+      * intros k Hk. right. apply Hin. exact Hk.
+      * intros Hd. apply NoDup_cons_iff in Hd. apply Hnd. tauto.
+Qed.
+
+Lemma name_in_spec : forall n l, name_in n l = true <-> In n l.
+Proof.
+  induction l as [|k r IH]; cbn [name_in In]; [split; [discriminate | intros []]|].
+  rewrite Bool.orb_true_iff, IH, name_eqb_eq. tauto.
+Qed.
+
+Lemma nodup_app : forall (l1 l2 : list name), NoDup l1 -> NoDup l2 ->
+  (forall x, In x l1 -> ~ In x l2) -> NoDup (l1 ++ l2).
+Proof.
+  induction l1 as [|x r IH]; intros l2 H1 H2 Hd; cbn [app]; auto.
+  apply NoDup_cons_iff in H1. destruct H1 as [Hx Hr]. constructor.
+  - rewrite in_app_iff. intros [H|H]; [contradiction | exact (Hd x (or_introl eq_refl) H)].
+  - apply IH; auto. intros y Hy. apply Hd. right. exact Hy.
+Qed.
+
+Theorem build_wf : forall e o, wf_oexpr e -> build e = Ok o -> wf_obj o.
+Proof.
+  induction e as [l|a IHa b IHb|a IHa n|c a IHa|a IHa|a IHa b IHb]; intros o Hwf H; cbn [build wf_oexpr] in *.
+  - injection H as <-. unfold wf_obj, layers. cbn. constructor; [exact Hwf | constructor].
+  - destruct Hwf as [Ha Hb].
+    destruct (build a) as [x| | |]; cbn [obind] in H; try discriminate.
+    destruct (build b) as [y| | |]; cbn [obind] in H; try discriminate.
+    injection H as <-. apply wf_extend; auto.
+  - destruct (build a) as [x| | |]; cbn [obind] in H; try discriminate.
+    injection H as <-. apply wf_remove_key; auto.
+  - destruct (build a) as [x| | |]; cbn [obind] in H; try discriminate.
+    injection H as <-. unfold map_with_key. apply wf_simple_obj. rewrite map_map. cbn [fst].
+    rewrite map_id. apply visible_nodup.
+  - destruct (build a) as [x| | |]; cbn [obind] in H; try discriminate.
+    unfold prune in H. destruct (prune_fields x (get_visible_fields_order x)) as [fs| | |] eqn:P; cbn [obind] in H; try discriminate.
+    injection H as <-. apply wf_simple_obj. apply (prune_fields_keys _ _ _ P). apply visible_nodup.
+  - destruct Hwf as [Ha Hb].
+    destruct (build a) as [x| | |]; cbn [obind] in H; try discriminate.
+    destruct (build b) as [y| | |]; cbn [obind] in H; try discriminate.
+    unfold merge_patch in H.
+    destruct (merge_patch_fields x y (get_visible_fields_order x) (get_visible_fields_order y)) as [fs| | |] eqn:P;
+      cbn [obind] in H; try discriminate.
+    injection H as <-. apply wf_simple_obj. rewrite map_app, map_map. cbn [fst]. rewrite map_id.
+    destruct (merge_patch_fields_keys _ _ _ _ _ P) as [Hin Hnd].
+    apply nodup_app.
+    + apply NoDup_filter. apply visible_nodup.
+    + apply Hnd. apply visible_nodup.
+    + intros k Hk Hk2. apply filter_In in Hk. destruct Hk as [_ Hk]. apply Hin in Hk2.
+      apply name_in_spec in Hk2. rewrite Hk2 in Hk. discriminate.
+Qed.
+
+(* a + b + c denotes the same object (or the same failure) in both bracketings *)
+Theorem build_assoc : forall a b c, build (OPlus (OPlus a b) c) = build (OPlus a (OPlus b c)).
+Proof.
+  intros a b c. cbn [build].
+  destruct (build a) as [x| | |]; cbn [obind]; try reflexivity.
+  destruct (build b) as [y| | |]; cbn [obind]; try reflexivity.
+  destruct (build c) as [z| | |]; cbn [obind]; try reflexivity.
+  rewrite extend_assoc. reflexivity.
+Qed.
+
 (* ------------------------------------------------------------------ the state machine as first found *)
 
 Module Old.
